@@ -145,6 +145,9 @@ class C10(runner.Prop):
                 row = [U.Leaf(1001 + 2 * (k * 100 + b)) for b in range(N)]
                 out = model.rebuild(msi, iter(row))
                 if vary and ((vary == 'second' and k == 1) or (vary == 'last' and k == M - 1)):
+                    if msi.kind == 'tuple' and len(msi.children) <= 2 and case.get('given_inner') is not None and len(calls) % 2:
+                        # same arity and children, but a tuple *subclass* (namedtuple) where a plain tuple is expected
+                        return [U.NT0, U.NT1, U.NT2][len(msi.children)](*out)
                     return U.CG(out, tag='vary')      # a shape no generated inner structure is a prefix of
                 return out
 
